@@ -937,3 +937,84 @@ mod tests {
   }
 }
 
+
+// Verification hooks (no behaviour change); compiled only with --cfg ellbur_totalmapper_verif
+#[cfg(ellbur_totalmapper_verif)]
+pub mod verif {
+  use super::*;
+  
+  #[derive(Debug, Clone, PartialEq, Eq)]
+  pub enum ScriptedDevice { Keyboard, Tablet }
+  
+  #[derive(Debug, Clone, PartialEq, Eq)]
+  pub enum ScriptedPoll { DeviceEvent(Vec<ScriptedDevice>), TimedOut, Interrupted }
+  
+  #[derive(Debug, Clone, PartialEq, Eq)]
+  pub enum ScriptedNext<T> { End, Busy, One(T) }
+  
+  #[derive(Debug, Clone, PartialEq, Eq)]
+  pub enum ScriptedTablet { On, Off }
+  
+  pub trait ScriptedDriver {
+    fn register_poll(&mut self) -> Result<(), String>;
+    fn poll(&mut self, timeout: Option<Duration>) -> Result<ScriptedPoll, String>;
+    fn next_keyboard(&mut self) -> Result<ScriptedNext<Event>, String>;
+    fn next_tablet(&mut self) -> Result<ScriptedNext<ScriptedTablet>, String>;
+    fn send(&mut self, evs: &Vec<Event>) -> Result<(), String>;
+  }
+  
+  struct Adapter<'a, D: ScriptedDriver> { inner: &'a mut D }
+  
+  impl<'a, D: ScriptedDriver> Driver for Adapter<'a, D> {
+    type PollRegistry = ();
+    
+    fn register_poll(&mut self) -> Result<(), String> {
+      self.inner.register_poll()
+    }
+    
+    fn poll(&mut self, _registry: &mut (), timeout: Option<Duration>) -> Result<PollResult, String> {
+      Ok(match self.inner.poll(timeout)? {
+        ScriptedPoll::TimedOut => PollResult::TimedOut,
+        ScriptedPoll::Interrupted => PollResult::Interrupted,
+        ScriptedPoll::DeviceEvent(devs) => PollResult::DeviceEvent(devs.into_iter().map(|d| match d {
+          ScriptedDevice::Keyboard => Device::Keyboard,
+          ScriptedDevice::Tablet => Device::Tablet
+        }).collect())
+      })
+    }
+    
+    fn next_keyboard(&mut self) -> Result<Next<Event>, String> {
+      Ok(match self.inner.next_keyboard()? {
+        ScriptedNext::End => Next::End,
+        ScriptedNext::Busy => Next::Busy,
+        ScriptedNext::One(e) => Next::One(e)
+      })
+    }
+    
+    fn next_tablet(&mut self) -> Result<Next<TableModeEvent>, String> {
+      Ok(match self.inner.next_tablet()? {
+        ScriptedNext::End => Next::End,
+        ScriptedNext::Busy => Next::Busy,
+        ScriptedNext::One(ScriptedTablet::On) => Next::One(On),
+        ScriptedNext::One(ScriptedTablet::Off) => Next::One(Off)
+      })
+    }
+    
+    fn send(&mut self, evs: &Vec<Event>) -> Result<(), String> {
+      self.inner.send(evs)
+    }
+  }
+  
+  pub fn run_one_device<D: ScriptedDriver>(driver: &mut D, layout: Layout) -> Result<(), String> {
+    let mut adapter = Adapter { inner: driver };
+    do_remapping_loop_one_device(&mut adapter, layout, false)
+  }
+  
+  pub fn flag_excluded_keyboards(devices: Vec<ExtractedKeyboard>, excludes: &[&str]) -> Vec<(ExtractedKeyboard, bool)> {
+    flag_excluded(devices, excludes).into_iter().map(|d| (d.extracted_keyboard, d.excluded)).collect()
+  }
+  
+  pub fn flag_excluded_devices(devices: Vec<ExtractedInputDevice>, excludes: &[&str]) -> Vec<(ExtractedInputDevice, bool)> {
+    flag_excluded_input_devices(devices, excludes).into_iter().map(|d| (d.extracted_keyboard, d.excluded)).collect()
+  }
+}
